@@ -60,8 +60,11 @@ impl MT950 {
             // Try to parse as generic Field60
             parser.parse_field::<Field60>("60")?
         } else {
-            return Err(crate::errors::ParseError::InvalidFormat {
-                message: "MT950: Missing required field 60 (opening balance)".to_string(),
+            return Err(crate::errors::ParseError::MissingRequiredField {
+                field_tag: "60".to_string(),
+                field_name: "field_60".to_string(),
+                message_type: "950".to_string(),
+                position_in_block4: Some(parser.position()),
             });
         };
 
@@ -88,8 +91,11 @@ impl MT950 {
             // Try to parse as generic Field62
             parser.parse_field::<Field62>("62")?
         } else {
-            return Err(crate::errors::ParseError::InvalidFormat {
-                message: "MT950: Missing required field 62 (closing balance)".to_string(),
+            return Err(crate::errors::ParseError::MissingRequiredField {
+                field_tag: "62".to_string(),
+                field_name: "field_62".to_string(),
+                message_type: "950".to_string(),
+                position_in_block4: Some(parser.position()),
             });
         };
 
